@@ -1315,9 +1315,9 @@ static std::vector<Job> makeJobs(const std::string &tier, unsigned long long see
                     sel.push_back(c);
                 }
     // history with a bound that is raised again on the same sampler object
-    const bool raised = getenv("VERIF_C15_RAISED") != nullptr;   // pending the coordinator's decision on D-C15-2
-    if (raised)
-        sel.push_back(SampleCfg{"Rn", "direct-raised", "inside", "max", 2, 2, 2, 2, 1.0, 0.0, 0.35, 100u, 2000, false});
+    // (known finding D-C15-2: pruning of hyperspheroids is permanent).  Strictly separate from every other job:
+    // everywhere else a job has its own fresh sampler and only non-increasing bounds, as planners use it.
+    sel.push_back(SampleCfg{"Rn", "direct-raised", "inside", "max", 2, 2, 2, 2, 1.0, 0.0, 0.35, 100u, 2000, false});
     for (size_t i = 0; i < sel.size(); ++i)
     {
         SampleCfg c = sel[i];
@@ -1361,8 +1361,7 @@ static std::vector<Job> makeJobs(const std::string &tier, unsigned long long see
     hs.push_back({"multi-wholespace", "Rn", "direct", "grid", 2, 2, 2, 2, 1.0, 0.35, "strip", S, 100u, 16, thorough ? 256 : 128});
     hs.push_back({"multi-rejection", "Rn", "rejection", "grid", 2, 2, 2, 2, 1.0, 0.35, "strip", S, 100u, 16, thorough ? 256 : 128});
     hs.push_back({"multi-ordered", "Rn", "ordered", "grid", 2, 2, 2, 2, 1.0, 0.35, "slab", S, 100u, 16, thorough ? 256 : 128});
-    if (raised)
-        hs.push_back({"multi-bound-raised", "Rn", "direct-raised", "grid", 2, 2, 2, 2, 1.0, 0.35, "slab", S, 100u, 16, thorough ? 256 : 128});
+    hs.push_back({"multi-bound-raised", "Rn", "direct-raised", "grid", 2, 2, 2, 2, 1.0, 0.35, "slab", S, 100u, 16, thorough ? 256 : 128});
     hs.push_back({"multi-3x2", "Rn", "direct", "grid", 2, 3, 2, 2, 1.0, 0.25, "slab", S, 100u, 16, thorough ? 256 : 128});
     hs.push_back({"single-cut-2d", "Rn", "direct", "grid", 2, 1, 1, 2, 1.0, 0.3, "slab", S, 100u, 16, thorough ? 256 : 128});
     hs.push_back({"single-cut-3d", "Rn", "direct", "grid", 3, 1, 1, 2, 1.0, 0.3, "slab", S, 100u, 6, thorough ? 24 : 16});
